@@ -21,6 +21,8 @@ C12_AppHeldStable   == J => \A o \in Objs : Final(o) \notin {"BAD:released-while
 C12_NoUseAfterRelease == J => \A o \in Objs : Final(o) # "BAD:written-after-release"
 \* "the library never reads a message after releasing it": every copy the retransmission sweep makes of a pending request while
 \* the acknowledgement path gives that request back is the request, byte for byte
-C12_CopiesIntact == J => (T.mode = "retx" => T.garbled = 0)
+\* ... and what is remembered for later (the reply kept for a message ID) does not live in a message that went back to the pool: after
+\* other exchanges have used the pooled objects, a duplicate is answered with the first reply, byte for byte (mode dupcache)
+C12_CopiesIntact == J => (T.mode \in {"retx", "dupcache"} => T.garbled = 0)
 C12_Ran == J => (T.done /\ Len(T.log) > 0)
 =============================================================================
